@@ -1,158 +1,7 @@
--- GENERATED by /verif/tools/translate from /repo/lorawan-device/src/mac/otaa.rs — do not edit.
-import LoraVerif.Rt
-import LoraVerif.Gen.Region
-set_option linter.unusedVariables false
+-- GENERATED stub: translation of /repo/lorawan-device/src/mac/otaa.rs failed:
+-- fn Otaa.handle_rx: call of unknown function DecryptedJoinAcceptPayload::decrypt_in_place
+-- Every theorem importing this module fails until the translator supports the construct
+-- (the check then falls back to the correspondence harness and the search).
 namespace Gen.OtaaFn
-open Gen.Region
-
-def RECEIVE_DELAY1 : Int := 1000
-
-def FOPTS_MAX_LEN : Int := 15
-
-structure Configuration where
-  data_rate : DR
-  rx1_delay : Int
-  join_accept_delay1 : Int
-  join_accept_delay2 : Int
-  tx_power : (Option Int)
-  rx1_dr_offset : Int
-  rx2_data_rate : (Option DR)
-  rx2_frequency : (Option Int)
-  adr_enabled : Bool
-  deriving DecidableEq, Repr
-
-/-- the newtype `DLSettings` -/
-structure DLSettings where
-  _0 : Int
-  deriving DecidableEq, Repr
-
-def DLSettings.rx1_dr_offset (self : DLSettings) : Option Int := do
-  let t1 ← Rt.shrC .u8 self._0 4
-  pure (Rt.andI t1 7)
-
-def DLSettings.rx2_data_rate (self : DLSettings) : Option DR := do
-  let t1 ← u8.into_DR (Rt.andI self._0 15)
-  pure t1
-
-/-! The crypto and the region stay abstract.  Keys, addresses and nonces are opaque identities. -/
-structure AES128 where
-  id : Int
-  deriving DecidableEq, Repr
-structure AppKey where
-  inner : AES128
-  deriving DecidableEq, Repr
-structure NwkSKey where
-  id : Int
-  deriving DecidableEq, Repr
-structure AppSKey where
-  id : Int
-  deriving DecidableEq, Repr
-structure DevAddr where
-  id : Int
-  deriving DecidableEq, Repr
-structure DevNonce where
-  value : Int
-  deriving DecidableEq, Repr
-/-- `DefaultCrypto::new(key)`: a crypto context is the key it is bound to -/
-structure DefaultCrypto where
-  new ::
-  key : AES128
-  deriving DecidableEq, Repr
-/-- the CFList of a JoinAccept as the parser exposes it (`lorawan::parser::CfList`) -/
-inductive CfList where
-  | DynamicChannel (freqs : List Int)
-  | FixedChannel (mask : List Int)
-  deriving DecidableEq, Repr
-/-- the decrypted view of a JoinAccept: the fields `Otaa::handle_rx` reads and the two key derivations
-(functions of the DevNonce and the crypto context; AES itself is not modelled) -/
-structure DecryptedJoinAcceptPayload where
-  c_f_list : Option CfList
-  rx_delay : Int
-  dl_settings : DLSettings
-  dev_addr : DevAddr
-  derive_nwkskey : DevNonce → DefaultCrypto → NwkSKey
-  derive_appskey : DevNonce → DefaultCrypto → AppSKey
-/-- the received bytes: what `check_mic_and_decrypt_in_place` yields on them under a crypto context
-(`none` = `Err`: not a JoinAccept, or the MIC does not verify) -/
-structure RxBytes where
-  check_mic_and_decrypt_in_place : DefaultCrypto → Option DecryptedJoinAcceptPayload
-structure RadioBuffer where
-  as_mut_for_read : RxBytes
-/-- what the join step calls on `region::Configuration` (macro-dispatched to the plan in the source;
-abstract here): `process_join_accept` (`&mut self`; `none` = panic), `rx1_dr_offset_validate`, `get_datarate` -/
-class RegionOps (ρ : Type) where
-  process_join_accept : ρ → Option CfList → Option ρ
-  rx1_dr_offset_validate : ρ → Int → Option Int
-  get_datarate : ρ → Int → Option Datarate
-variable {RegionCfg : Type} [RegionOps RegionCfg]
-
-structure Uplink where
-  pending : (List Int)
-  confirmed : Bool
-  deriving DecidableEq, Repr
-
-structure Session where
-  uplink : Uplink
-  confirmed : Bool
-  nwkskey : NwkSKey
-  appskey : AppSKey
-  devaddr : DevAddr
-  fcnt_up : Int
-  fcnt_down : (Option Int)
-  adr_ack_cnt : Int
-  deriving DecidableEq, Repr
-
-/-- the fields ["appkey"] of `NetworkCredentials` (the others are not modelled) -/
-structure NetworkCredentials where
-  appkey : AppKey
-  deriving DecidableEq, Repr
-
-def Session.new (nwkskey : NwkSKey) (appskey : AppSKey) (devaddr : DevAddr) : Session :=
-  ({ nwkskey := nwkskey, appskey := appskey, devaddr := devaddr, confirmed := false, fcnt_down := none, fcnt_up := 0, adr_ack_cnt := 0, uplink := ({ pending := [], confirmed := false } : Uplink) } : Session)
-
-def NetworkCredentials.appkey_fn (self : NetworkCredentials) : AppKey :=
-  self.appkey
-
-def Session.derive_new (decrypt : DecryptedJoinAcceptPayload) (devnonce : DevNonce) (credentials : NetworkCredentials) : Session :=
-  (Session.new (DecryptedJoinAcceptPayload.derive_nwkskey decrypt devnonce (DefaultCrypto.new (AppKey.inner (NetworkCredentials.appkey_fn credentials)))) (DecryptedJoinAcceptPayload.derive_appskey decrypt devnonce (DefaultCrypto.new (AppKey.inner (NetworkCredentials.appkey_fn credentials)))) (DecryptedJoinAcceptPayload.dev_addr decrypt))
-
-structure Otaa where
-  dev_nonce : DevNonce
-  network_credentials : NetworkCredentials
-  deriving DecidableEq, Repr
-
-def del_to_delay_ms (del : Int) : Option Int := do
-  if decide (2 ≤ del ∧ del ≤ 15) then
-    (do
-      let t1 ← Rt.ck .u32 (del * 1000)
-      pure t1)
-  else
-    pure (RECEIVE_DELAY1)
-
-def Otaa.handle_rx (self : Otaa) (region : RegionCfg) (configuration : Configuration) (rx : RadioBuffer) : Option ((Option Session) × Otaa × RegionCfg × Configuration × RadioBuffer) := do
-  match (RxBytes.check_mic_and_decrypt_in_place (RadioBuffer.as_mut_for_read rx) (DefaultCrypto.new (AppKey.inner self.network_credentials.appkey))) with
-  | some decrypt => (do
-      let region ← RegionOps.process_join_accept region (DecryptedJoinAcceptPayload.c_f_list decrypt)
-      let t1 ← del_to_delay_ms (DecryptedJoinAcceptPayload.rx_delay decrypt)
-      let configuration := { configuration with rx1_delay := t1 }
-      let dl_settings := (DecryptedJoinAcceptPayload.dl_settings decrypt)
-      let t2 ← DLSettings.rx1_dr_offset dl_settings
-      let (configuration, region) := (match (RegionOps.rx1_dr_offset_validate region t2) with
-        | some rx1_dr_offset => (let configuration := { configuration with rx1_dr_offset := rx1_dr_offset }
-          (configuration, region))
-        | none => ((configuration, region)))
-      let t3 ← DLSettings.rx2_data_rate dl_settings
-      let rx2_data_rate := t3
-      let (configuration, region) := (if (RegionOps.get_datarate region (Rt.wrap .u8 (DR.toInt rx2_data_rate))).isSome then
-          (let configuration := { configuration with rx2_data_rate := (some rx2_data_rate) }
-          (configuration, region))
-        else
-          ((configuration, region)))
-      pure ((some (Session.derive_new decrypt self.dev_nonce self.network_credentials)), self, region, configuration, rx))
-  | none => pure ((none, self, region, configuration, rx))
-
+def TRANSLATION_FAILED : String := "fn Otaa.handle_rx: call of unknown function DecryptedJoinAcceptPayload::decrypt_in_place"
 end Gen.OtaaFn
-
-/-- unfolds the helper functions the translator emitted for this unit (NetworkCredentials.appkey_fn, del_to_delay_ms) -/
-macro "gen_unfold_helpers_OtaaFn" : tactic => `(tactic| simp only [Gen.OtaaFn.NetworkCredentials.appkey_fn, Gen.OtaaFn.del_to_delay_ms])
-macro "gen_unfold_methods_OtaaFn" : tactic => `(tactic| simp only [Gen.OtaaFn.NetworkCredentials.appkey_fn])
